@@ -34,7 +34,8 @@ ANCHORS = [
                               "_process_generation", "_process_generation_async", "_submit_generation",
                               "_submit_func", "_run_and_process_generation", "_run_and_process_generation_async",
                               "_update_array", "_output_from_mapspec_task", "_dump_single_output",
-                              "_maybe_persist_memory"]),
+                              "_maybe_persist_memory", "_expose_error_snapshots"]),
+    ("pipefunc/map/_prepare.py", ["prepare_run", "_cannot_be_parallelized"]),
 ]
 RULE = ("pipelines of harness/pipegen.py (1..5 structural functions; every output; root arguments as keywords, and for "
         "half of the outputs also another element of arg_combinations, i.e. supplied intermediates) and "
@@ -55,6 +56,10 @@ ASSUMPTIONS = [
     "process pools: only exception class and args are demanded (notes / ErrorSnapshot are per-process and may be "
     "lost by pickling); the custom exception class is importable in the workers",
     "ErrorSnapshot.save_to_file/load_from_file = cloudpickle round trip, modelled as the identity",
+    "every run with an executor happens in a forked child of the check under a hard 40 s limit (sequential runs: "
+    "SIGALRM in-process), so a hang is an observation, never a hang of the check",
+    "the output_names=<all outputs> entry points are only explored for requests whose subpipeline run invokes the "
+    "same functions (Pipeline.subpipeline drops functions that are not downstream of a supplied input)",
     "executor runs are observed after the executor has been shut down (with Executor() as ex: ...), the call log is "
     "compared as a multiset there; real interleavings inside a generation are sampled, not proved",
     "'completed before the failure' = invocations logged before the failing one (sequential) / invocations of "
@@ -73,7 +78,6 @@ TIMEOUT_S = 40.0
 # run folders / call logs / snapshot files: a RAM-backed directory when there is one (the root file system of the
 # sandbox needs ~3 ms per unlink), always removed
 TMP_BASE = "/dev/shm" if os.path.isdir("/dev/shm") and os.access("/dev/shm", os.W_OK) else None
-SEQ_MODES = ("seq",)
 # "...sub": the same call with output_names=<all outputs>, which makes map execute a subpipeline COPY
 INPROC = {"seq": True, "thread": True, "athread": True, "proc": False, "procdefault": False, "aproc": False,
           "seqsub": True, "threadsub": True}
